@@ -21,7 +21,7 @@ from ..term import Resolver, pmatch
 
 COV = "inference/gp/covariance.py"
 MEAN = "inference/gp/mean.py"
-FLOORS = {"state-refreshed": 1, "float-arithmetic": 3, "mean-gradient-depends": 2, "mean-gradient-form": 3, "kernel-derivative-terms": 2,
+FLOORS = {"returned-as-computed": 2, "state-refreshed": 1, "float-arithmetic": 3, "mean-gradient-depends": 2, "mean-gradient-form": 3, "kernel-derivative-terms": 2,
           "gradient-cov-rank": 1, "variance-derivative-form": 1, "gradient-mean-form": 2, "arguments-not-mutated": 12}
 
 
@@ -52,8 +52,53 @@ def _roles(fn):
     return out
 
 
+SHAPE_ONLY = {"array", "asarray", "stack", "vstack", "squeeze", "copy", "atleast_1d", "atleast_2d", "reshape", "tuple", "list"}
+
+
+def _returned_as_computed(c, fn):
+    """What gradient() / spatial_derivatives() hand back is the per-point values collected, re-shaped at most: a gradient mean, a
+    gradient covariance (whose off-diagonal entries are legitimately negative) and a variance derivative (any sign) admit no
+    element-wise map - abs, sqrt, clip, maximum - between the formula and the caller."""
+    ret = last_return(fn)
+    bad = []
+    for k, e in enumerate(ret.value.elts if isinstance(ret.value, ast.Tuple) else [ret.value]):
+        v = e
+        while True:
+            if isinstance(v, ast.Name):
+                break
+            if isinstance(v, ast.Call):
+                f = v.func
+                nm = f.attr if isinstance(f, ast.Attribute) else f.id if isinstance(f, ast.Name) else None
+                if nm in SHAPE_ONLY:
+                    v = f.value if isinstance(f, ast.Attribute) and not (isinstance(f.value, ast.Name) and f.value.id in ("np", "numpy")) \
+                        else (v.args[0] if v.args else None)
+                    if v is None:
+                        break
+                    continue
+                bad.append((k, f"{nm}(..)", U(e)))
+                break
+            if isinstance(v, ast.Attribute) and v.attr == "T":
+                v = v.value
+                continue
+            if isinstance(v, ast.Subscript):
+                v = v.value
+                continue
+            bad.append((k, type(v).__name__, U(e)))
+            break
+    msg = ""
+    if bad:
+        k, what, text = bad[0]
+        msg = (f"result {k} is returned as `{text[:120]}`: `{what}` changes the values between the formula and the caller (a gradient "
+               f"covariance has negative off-diagonal entries, a variance derivative has either sign)")
+    return struct_ob("returned-as-computed", qual(c, fn), not bad, msg, c.module.relpath, ret.lineno,
+                     slots={"returned": U(ret.value)[:200]})
+
+
 def run(prog, tier):
     obs, info = [], []
+    for mname in ("gradient", "spatial_derivatives"):
+        c_, fn_ = prog.method("GpRegressor", mname)
+        obs.append(_returned_as_computed(c_, fn_))
 
     # ---------------------------------------------------------------- the mean function enters both predictors
     for mname, var in (("gradient", "mean"), ("spatial_derivatives", "dmu_dx")):
